@@ -487,7 +487,7 @@ def evidence_doc(chk, tier, seed, agg, wall, reported, truncated, planned, worke
         "repo_head": _git_head(core.repo_root()),
     }
     if agg.reach_runs:
-        cov["reach"] = reach.report(chk.pid, agg.lines, agg.reach_runs)
+        cov["reach"] = reach.report(chk.pid, agg.lines, agg.reach_runs, getattr(chk, "reach_dirs", ()))
     extra = getattr(chk, "extra_evidence", None)
     if extra:
         cov.update(extra(tier, agg))
